@@ -52,7 +52,7 @@ def induced_modes(recipe_path):
   rm.load_quantization_recipe(json.load(open(recipe_path)))
   km, mixed = {}, []
   for kind, members in synth.KIND_MEMBERS.items():
-    if kind == "UNSUP":
+    if kind in ("UNSUP", "UNSUP2"):
       km[kind] = [configs.NOQ]
       continue
     ms = [classify(*rm.get_quantization_configs(Q.TFLOperationName(m), "any_scope;")) for m in members]
